@@ -132,8 +132,9 @@ def _dangling(task, allkeys, names, depth=0):
     out = []
     if depth > 8:
         return out
-    if isinstance(task, tuple) and len(task) >= 2 and isinstance(task[0], str) and task[0] in names \
-            and all(isinstance(i, int) for i in task[1:]):
+    if isinstance(task, tuple) and len(task) >= 2 and isinstance(task[0], str) and all(isinstance(i, int) for i in task[1:]) \
+            and (task[0] in names or any(n in task[0] for n in names if isinstance(n, str) and len(n) > 20)):
+        # key-shaped: its name is (or embeds, like "split-<name>") the name of a key family of this plan
         if task not in allkeys:
             out.append(task)
         return out
@@ -204,9 +205,77 @@ def walk_plan(low, stage, base):
     return lines, exec_err
 
 
+def special_programs():
+    """programs outside the linear QueryGen space: one frame feeding two differently parameterised instances of the
+    same operator family inside ONE graph (their helper task keys must not collide), broadcast joins of every kind
+    and suffix pair, frames with integer / falsy column labels"""
+    import itertools
+    progs = {}
+
+    def src(kind):
+        import numpy as np
+        import pandas as pd
+        import dask_expr as dx
+        from . import rel as _rel
+        tabs = _rel.make_tables(1, nrows=(12, 8))
+        if kind == "known":
+            return dx.from_pandas(tabs["T1"], npartitions=3), dx.from_pandas(tabs["T2"], npartitions=2)
+        pdf = tabs["T1"]
+        pieces = [pdf.iloc[0:4], pdf.iloc[4:8], pdf.iloc[8:12]]
+        return dx.from_map(_rel._Pieces(pieces), [0, 1, 2], meta=pdf.iloc[:0]), dx.from_pandas(tabs["T2"], npartitions=2)
+
+    fam = {
+        "repart": [lambda d: d.repartition(npartitions=4), lambda d: d.repartition(npartitions=5), lambda d: d.repartition(npartitions=6),
+                   lambda d: d.repartition(npartitions=7), lambda d: d.repartition(npartitions=2)],
+        "diff": [lambda d: d.diff(1), lambda d: d.diff(2)],
+        "shift": [lambda d: d.shift(1), lambda d: d.shift(2), lambda d: d.shift(-1)],
+        "shuffle": [lambda d: d.shuffle("k", npartitions=2, shuffle_method="tasks"), lambda d: d.shuffle("k", npartitions=4, shuffle_method="tasks"),
+                    lambda d: d.shuffle("k", npartitions=4, shuffle_method="tasks", max_branch=2)],
+        "sort": [lambda d: d.sort_values("a", npartitions=2), lambda d: d.sort_values("a", npartitions=3), lambda d: d.sort_values("a", ascending=False)],
+        "cum": [lambda d: d.cumsum(), lambda d: d.cummax()],
+        "ffill": [lambda d: d.ffill(), lambda d: d.bfill()],
+        "head": [lambda d: d.head(2, npartitions=2, compute=False), lambda d: d.head(3, npartitions=2, compute=False)],
+        "dedup": [lambda d: d.drop_duplicates(split_out=1), lambda d: d.drop_duplicates(split_out=2)],
+    }
+    for kind in ("known", "unknown"):
+        for name, fs in fam.items():
+            for i, j in itertools.combinations(range(len(fs)), 2):
+                def mk(kind=kind, f=fs[i], g=fs[j]):
+                    import dask_expr as dx
+                    d, _ = src(kind)
+                    return dx.concat([f(d), g(d)])
+                progs[f"two:{name}:{i}{j}:{kind}"] = mk
+    for how in ("inner", "left", "right", "leftsemi"):
+        for sfx in (("_x", "_y"), ("_big", "_small"), ("", "_r")):
+            for swap in (False, True):
+                def mk(how=how, sfx=sfx, swap=swap):
+                    a, b = src("known")
+                    l, r = (b, a) if swap else (a, b)
+                    return l.merge(r, on="k", how=how, suffixes=sfx, broadcast=True, shuffle_method="tasks")
+                progs[f"bcast:{how}:{sfx[0]}{sfx[1]}:{swap}"] = mk
+
+    def intframe():
+        import numpy as np
+        import pandas as pd
+        import dask_expr as dx
+        pdf = pd.DataFrame({0: np.arange(12) % 3 + 0.0, 1: np.arange(12) % 4, 2: np.arange(12) * 1.5, "": np.arange(12) % 2})
+        return dx.from_pandas(pdf, npartitions=3)
+    ints = {
+        "gb_size0": lambda d: d.groupby(1)[0].size(), "gb_sum0": lambda d: d.groupby(1)[0].sum(), "gb_size_empty": lambda d: d.groupby(1)[""].size(),
+        "gb_count2": lambda d: d.groupby(1)[2].count(), "col0": lambda d: d[0], "colempty": lambda d: d[""], "proj02": lambda d: d[[0, 2]],
+        "add": lambda d: d[0] + d[2], "rename0": lambda d: d.rename(columns={0: "z"}), "sum": lambda d: d.sum(), "vc": lambda d: d[1].value_counts(),
+        "gb_mean": lambda d: d.groupby(1).mean(), "nunique": lambda d: d[0].nunique(), "max0": lambda d: d[0].max(), "filter0": lambda d: d[d[0] > 0][0],
+    }
+    for name, f in ints.items():
+        progs[f"int:{name}"] = (lambda f=f: f(intframe()))
+    return progs
+
+
 def replay(case):
     """program -> trace lines for C06 / C07 / C09"""
     from dask_expr._expr import optimize_until
+    if case.get("special"):
+        return replay_special(case)
     q = case["q"]
     tabs = rel.make_tables(case["dseed"], t2_index=case.get("t2_index", "overlap"))
     if case.get("t2_index", "overlap") != "overlap":
@@ -267,6 +336,49 @@ def replay(case):
     return {"lines": out}
 
 
+def replay_special(case):
+    from dask_expr._expr import optimize_until
+    base = {"case": case["cid"]}
+    try:
+        coll = special_programs()[case["special"]]()
+    except Exception as ex:
+        return {"unbuildable": f"{type(ex).__name__}: {ex}"[:200]}
+    out = []
+    schemas = []
+    for stage in ("logical", "simplified-logical", "tuned-logical", "physical", "simplified-physical", "fused"):
+        try:
+            schemas.append(dict(schema_of(optimize_until(coll.expr, stage)._meta), stage=stage))
+        except Exception as ex:
+            schemas.append({"stage": stage, "err": type(ex).__name__})
+    ok = [s for s in schemas if "err" not in s]
+    out.append(dict(base, kind="stages", schemas=[{k: v for k, v in s.items() if k != "stage"} for s in ok], stages=[s["stage"] for s in ok]))
+    for stage, mk in (("lowered-unoptimized", lambda: coll.expr.lower_completely()), ("fused", lambda: optimize_until(coll.expr, "fused"))):
+        try:
+            low = mk()
+        except Exception as ex:
+            out.append(dict(base, kind="plan_error", stage=stage, err=f"{type(ex).__name__}: {ex}"[:200]))
+            continue
+        lines, err = walk_plan(low, stage, base)
+        out.extend(lines)
+        if err:
+            out.append(dict(base, kind="exec_error", stage=stage, err=err))
+    try:
+        import dask
+        root = coll.expr
+        low = root.lower_completely()
+        parts = dask.get(low.__dask_graph__(), low.__dask_keys__())
+        res = coll.compute(scheduler="sync")
+        divs = root.divisions
+        known = divs[0] is not None and not any(d is None for d in divs) and not any(isinstance(d, str) for d in divs)
+        import pandas as pd
+        out.append(dict(base, kind="node", stage="logical-root", cls=type(root).__name__, np=int(root.npartitions), known=bool(known),
+                        div=[_enc_label(d) for d in divs] if known else [], parts=[part_facts(p) for p in parts], decl=schema_of(root._meta),
+                        pschemas=[schema_of(p) for p in parts if isinstance(p, (pd.DataFrame, pd.Series, pd.Index))], has_result=True, rschema=schema_of(res), asserted=False, is_root=True))
+    except Exception as ex:
+        out.append(dict(base, kind="root_error", err=f"{type(ex).__name__}: {ex}"[:200]))
+    return {"lines": out}
+
+
 def lens_history(case):
     """C06 lengths under session history: one from_pandas source with unequal partitions; metadata-only len() of
     several partition selections (through a projection / elementwise op, where Len is answered from the source's
@@ -318,9 +430,11 @@ def run_for(pid, tier="quick", seed=0, replay_path=None):
             cases.append({"q": c["q"], "sc": c["sc"], "dseed": rnd.randrange(5), "np1": rnd.choice([2, 3]), "np2": rnd.choice([1, 2]),
                           "cuts1": rnd.choice([[3, 3, 6], [0, 4], [2, 5, 9]]), "layout": lay})
         # concat of inputs whose index ranges touch / are disjoint (divisions can be kept)
-        for c in [c for c in cases if "concat" in rel.ops_of(c["q"])][: 60 if tier == "quick" else 600]:
+        for c in [c for c in cases if not c.get("special") and "concat" in rel.ops_of(c["q"])][: 60 if tier == "quick" else 600]:
             for mode in ("touch", "after"):
                 cases.append(dict(c, t2_index=mode, layout="A"))
+        for name in sorted(special_programs()):
+            cases.append({"special": name, "q": {"op": "special:" + name}})
         if pid == "C06":
             for i in range(12 if tier == "quick" else 80):
                 cases.append({"lens_history": True, "seed": seed * 1000 + i})
@@ -372,7 +486,7 @@ def run_for(pid, tier="quick", seed=0, replay_path=None):
         elif ln["kind"] in ("lens", "stages"):
             chk.note_nontrivial(common.case_hash([c.get("q", c.get("seed")), ln["kind"], ln.get("stage")]))
         if ln["tid"] in rejects:
-            pub = {"program": {k: v for k, v in c.items() if k != "cid"}, "ops": rel.ops_of(c["q"]) if "q" in c else [], "stage": ln.get("stage"),
+            pub = {"program": {k: v for k, v in c.items() if k != "cid"}, "ops": rel.ops_of(c["q"]) if "q" in c and not c.get("special") else [], "stage": ln.get("stage"),
                    "cls": ln.get("cls", ""), "kind": ln["kind"], "q": c.get("q", {"op": "none"})}
             det = {k: ln[k] for k in ("np", "known", "div", "parts", "decl", "pschemas", "rschema", "schemas", "stages", "pairs", "desc") if k in ln}
             if ln["kind"] == "graph":
